@@ -1,7 +1,9 @@
 (* Float facts used by the C20 development:
    - [Z2Ff_eq]: the fast int64->double conversion of the model equals FloatModel.Z2F;
    - order facts about binary64 comparisons used to instantiate the generic theorems. *)
-From Coq Require Import ZArith Lia Floats SpecFloat Uint63.
+From Coq Require Import ZArith Lia Floats SpecFloat Uint63 Reals Lra.
+From Flocq Require Import Core.Raux IEEE754.BinarySingleNaN.
+From Flocq Require IEEE754.PrimFloat.
 From Clip Require Import base.Geom base.FloatModel model.PathUtils.
 Local Open Scope Z_scope.
 
@@ -44,3 +46,79 @@ Proof.
   - apply Z.leb_le in Hs. apply of_uint63_Z2F. lia.
   - apply Z.leb_gt in Hs. rewrite <- Z2F_opp by lia. f_equal. lia.
 Qed.
+
+(* ------------------------------------------------------------------ binary64 comparisons (through Flocq) *)
+Section Cmp.
+Let prec := 53%Z.
+Let emax := 1024%Z.
+
+Ltac inf_case a b e :=
+  destruct a as [[|]|[|]| |[|] ? ? ?], b as [[|]|[|]| |[|] ? ? ?], e as [[|]|[|]| |[|] ? ? ?];
+  try discriminate; intros _ _ _; unfold Bltb, Bleb, SFltb, SFleb; cbn [B2SF SFcompare];
+  try reflexivity; try discriminate.
+
+Lemma Bltb_gt_trans (a b e : binary_float prec emax) :
+  Bltb a b = true -> Bltb e b = false -> Bltb e a = false.
+Proof.
+  destruct (BinarySingleNaN.is_finite a) eqn:Fa, (BinarySingleNaN.is_finite b) eqn:Fb, (BinarySingleNaN.is_finite e) eqn:Fe.
+  - rewrite !Bltb_correct by assumption.
+    repeat case Rlt_bool_spec; intros; try reflexivity; try discriminate; exfalso; lra.
+  - revert Fa Fb Fe; inf_case a b e.
+  - revert Fa Fb Fe; inf_case a b e.
+  - revert Fa Fb Fe; inf_case a b e.
+  - revert Fa Fb Fe; inf_case a b e.
+  - revert Fa Fb Fe; inf_case a b e.
+  - revert Fa Fb Fe; inf_case a b e.
+  - revert Fa Fb Fe; inf_case a b e.
+Qed.
+
+(* a <= b is total on non-NaN values, transitive everywhere *)
+Lemma Bleb_trans (a b c : binary_float prec emax) :
+  Bleb a b = true -> Bleb b c = true -> Bleb a c = true.
+Proof.
+  destruct (BinarySingleNaN.is_finite a) eqn:Fa, (BinarySingleNaN.is_finite b) eqn:Fb, (BinarySingleNaN.is_finite c) eqn:Fe.
+  - rewrite !Bleb_correct by assumption.
+    repeat case Rle_bool_spec; intros; try reflexivity; try discriminate; exfalso; lra.
+  - revert Fa Fb Fe; inf_case a b c.
+  - revert Fa Fb Fe; inf_case a b c.
+  - revert Fa Fb Fe; inf_case a b c.
+  - revert Fa Fb Fe; inf_case a b c.
+  - revert Fa Fb Fe; inf_case a b c.
+  - revert Fa Fb Fe; inf_case a b c.
+  - revert Fa Fb Fe; inf_case a b c.
+Qed.
+
+Lemma Bleb_total (a b : binary_float prec emax) :
+  BinarySingleNaN.is_nan a = false -> BinarySingleNaN.is_nan b = false -> Bleb a b = false -> Bleb b a = true.
+Proof.
+  destruct (BinarySingleNaN.is_finite a) eqn:Fa, (BinarySingleNaN.is_finite b) eqn:Fb.
+  - rewrite !Bleb_correct by assumption.
+    repeat case Rle_bool_spec; intros; try reflexivity; try discriminate; exfalso; lra.
+  - revert Fa Fb. destruct a as [[|]|[|]| |[|] ? ? ?], b as [[|]|[|]| |[|] ? ? ?];
+      try discriminate; intros _ _; unfold Bleb, SFleb; cbn [B2SF SFcompare BinarySingleNaN.is_nan]; try reflexivity; try discriminate.
+  - revert Fa Fb. destruct a as [[|]|[|]| |[|] ? ? ?], b as [[|]|[|]| |[|] ? ? ?];
+      try discriminate; intros _ _; unfold Bleb, SFleb; cbn [B2SF SFcompare BinarySingleNaN.is_nan]; try reflexivity; try discriminate.
+  - revert Fa Fb. destruct a as [[|]|[|]| |[|] ? ? ?], b as [[|]|[|]| |[|] ? ? ?];
+      try discriminate; intros _ _; unfold Bleb, SFleb; cbn [B2SF SFcompare BinarySingleNaN.is_nan]; try reflexivity; try discriminate.
+Qed.
+End Cmp.
+
+Lemma ltb_gt_trans (a b e : float) : (a <? b)%float = true -> (e <? b)%float = false -> (e <? a)%float = false.
+Proof. rewrite !PrimFloat.ltb_equiv. apply Bltb_gt_trans. Qed.
+
+Lemma leb_trans (a b c : float) : (a <=? b)%float = true -> (b <=? c)%float = true -> (a <=? c)%float = true.
+Proof. rewrite !PrimFloat.leb_equiv. apply Bleb_trans. Qed.
+
+Definition not_nan (x : float) : bool := (x =? x)%float.
+
+Lemma leb_total (a b : float) : not_nan a = true -> not_nan b = true -> (a <=? b)%float = false -> (b <=? a)%float = true.
+Proof.
+  unfold not_nan. rewrite !PrimFloat.eqb_equiv, !PrimFloat.leb_equiv, !Beqb_refl.
+  intros Ha Hb. apply Bleb_total.
+  - apply Bool.negb_true_iff in Ha; exact Ha.
+  - apply Bool.negb_true_iff in Hb; exact Hb.
+Qed.
+
+(* the squared epsilon of the property's quantifier (epsilon >= 0, not NaN) is >= 0 *)
+Lemma MAX_DBL_not_nan : not_nan MAX_DBL = true.
+Proof. reflexivity. Qed.
